@@ -150,3 +150,67 @@ def seeded_programs(seed, n):
         body = fill(rnd.choice(CTX_FUNC).replace("%E", expr(1)), lambda: stmt(rnd.randint(0, 2)))
         progs.append(PRELUDE + body)
     return progs
+
+
+# ---- scope x exit family ----------------------------------------------------------------------------------
+# Every construct that opens a runtime environment (a lexical declaration captured by a closure, `with`,
+# catch parameter, class with private names) crossed with every way of leaving it, nested two deep, inside
+# plain / generator / async functions, loops, labels and try/finally.
+
+SCOPES = [
+    "{ let x = 1; cl(() => x); %s }",
+    "switch (k) { case 1: let x = 1; cl(() => x); %s; case 2: %s; default: cl(2); }",
+    "switch (k) { case 1: %s; default: let y = 2; cl(() => y); }",
+    "for (let x = 0; x < 2; x++) { cl(() => x); %s }",
+    "for (let x of a) { cl(() => x); %s }",
+    "for (const x in o) { cl(() => x); %s }",
+    "for (let x = 0, z = cl(() => x); x < 2; x++) { %s }",
+    "try { thrower(); %s } catch (x) { cl(() => x); %s }",
+    "try { let x = 1; cl(() => x); %s } finally { let y = 2; cl(() => y); }",
+    "try { %s } catch ({ message: x }) { cl(() => x); } finally { %s }",
+    "with (o) { %s }",
+    "with (o) { let x = 1; cl(() => x); %s }",
+    "{ class C { #p = 1; static s = cl(() => C); m() { return this.#p; } } %s }",
+    "{ function inner() { return inner; } let x = 1; cl(() => x); %s }",
+    "while (k--) { let x = k; cl(() => x); %s }",
+    "do { const x = 1; cl(() => x); %s } while (k--);",
+    "if (k) { let x = 1; cl(() => x); %s } else { let y = 2; cl(() => y); %s }",
+]
+EXITS = ["", "break;", "continue;", "return 1;", "throw 1;", "break L;", "continue L;", "if (k) break; else continue;",
+         "yield 1;", "await 1;", "return cl(() => 1);", "k = k ?? 1;"]
+OUTERS = [
+    "function f(a, o, k) { L: for (;;) { %s } }",
+    "function* f(a, o, k) { L: for (const q of a) { %s } }",
+    "async function f(a, o, k) { L: while (k) { %s } }",
+    "async function* f(a, o, k) { L: do { %s } while (k); }",
+    "function f(a, o, k) { L: for (let w = 0; w < 2; w++) { cl(() => w); try { %s } finally { cl(3); } } }",
+    "function f(a, o, k) { L: for (var w in o) { try { %s } catch (e) { cl(() => e); continue L; } finally { k++; } } }",
+    "var f = (a, o, k) => { L: { M: for (;;) { %s } } };",
+    "function f(a, o, k = cl(() => a)) { L: for (;;) { switch (k) { case 0: %s } } }",
+    "class K { static m(a, o, k) { L: for (;;) { %s } } }",
+    "function f(a, o, k) { 'use strict'; L: for (;;) { with_free: { %s } } }",
+]
+
+
+def scope_programs(depth):
+    progs = []
+
+    def emit(outer, body):
+        progs.append("var cl = x => x, thrower = () => { throw 1; }; " + outer.replace("%s", body))
+
+    for oi, outer in enumerate(OUTERS):
+        for si, sc in enumerate(SCOPES):
+            for ei, ex in enumerate(EXITS):
+                if depth < 2 and (oi + si + ei) % 3 != 0 and oi > 0:
+                    continue
+                emit(outer, sc.replace("%s", ex))
+    if depth >= 2:
+        # two nested scopes, exits in the inner one
+        for oi, outer in enumerate(OUTERS[: (3 if depth < 3 else len(OUTERS))]):
+            for si, s1 in enumerate(SCOPES):
+                for sj, s2 in enumerate(SCOPES):
+                    for ei, ex in enumerate(EXITS[:8]):
+                        if depth < 3 and (oi + si + sj + ei) % 4 != 0:
+                            continue
+                        emit(outer, s1.replace("%s", s2.replace("%s", ex)))
+    return progs
